@@ -4,6 +4,7 @@ cd /verif
 for c in $(python3 -c "import json;print(' '.join(x['property_id'] for x in json.load(open('MANIFEST.json'))['checks']))"); do
   timeout 900 ./check $c $1 2>&1 | grep -E "^VIOL|^UNDEC|^CRASH|^C[0-9]+ \[" | cut -c1-220 | tail -3
 done
+timeout 900 .venv/bin/python -m tsv.selftest_ext 2>&1 | grep -E "MISMATCH|selftest_ext"
 python3-vt - <<'PY'
 import json, jsonschema, glob
 sch = json.load(open('/root/.vp/EVIDENCE.schema.json'))
